@@ -467,6 +467,36 @@ def rule_k(ctx: Ctx, env: EnvA):
                construct=f"{rs.fi.qualname}:initial-mask")
 
 
+def rule_m(ctx: Ctx, env: EnvA):
+    """C01.m pickup -> delivery pairing (PDP, MDCPDP): the entry unlocked in `to_deliver` is
+    (action + n // 2) mod (number of nodes), with n = number of customers derived from the
+    instance (locs) -- pickups 1..n/2 unlock deliveries n/2+1..n."""
+    if env.name not in ("PDPEnv", "MDCPDPEnv"):
+        return
+    sl = env.slot("_step")
+    v = nf.strip(sl.cell("to_deliver"))
+    ok, why = False, "to_deliver is not updated by scatter(-1, paired index, 1)"
+    if v.op == "meth" and v.args[1] in ("scatter", "scatter_") and len(v.args) >= 5:
+        idx = v.args[3]
+        mods = [n for n in vg.walk(idx) if n.op == "%"]
+        if len(mods) == 1:
+            m_ = mods[0]
+            left, right = nf.poly(m_.args[0]), nf.poly(m_.args[1])
+            shp = [a for a in right.atoms() if a.op == "sub" and a.args[0].op == "attr" and a.args[0].args[1] == "shape" and "locs" in vg.cells_of(a, shapes=True)]
+            # number of nodes = locs.shape[-2]
+            nodes_ok = len(shp) == 1 and right == nf.Poly.atom(shp[0])
+            act = [a for a in left.atoms() if "action" in vg.cells_of(a)]
+            half = [a for a in left.atoms() if a.op == "//" and vg.is_const(a.args[1], 2)]
+            half_ok = False
+            if len(half) == 1 and len(act) == 1 and left == nf.Poly.atom(act[0]) + nf.Poly.atom(half[0]):
+                n_poly = nf.poly(half[0].args[0])
+                # n = locs.shape[-2] - (number of depots)
+                half_ok = len(shp) == 1 and (nf.Poly.atom(shp[0]) - n_poly).const_term() >= 0 and shp[0] in n_poly.atoms()
+            ok = nodes_ok and half_ok
+            why = f"paired index = ({left.show(2)}) % ({right.show(2)}): modulus is the number of nodes: {nodes_ok}; offset is (number of customers) // 2: {half_ok}"
+    ctx.ob("C01.m", f"{env.name}._step:pairing", ok, sl.where, why, construct=f"{sl.fi.qualname}:pairing")
+
+
 def run(ctx: Ctx):
     registries = {
         "context": _registry(ctx, "rl4co/models/nn/env_embeddings/context.py", "env_context_embedding"),
@@ -487,6 +517,7 @@ def run(ctx: Ctx):
         rule_h(ctx, env)
         rule_g(ctx, env, registries)
         rule_k(ctx, env)
+        rule_m(ctx, env)
 
 
 def run_thorough(ctx: Ctx):
